@@ -25,7 +25,7 @@ from .C20 import deep_unwrap
 LEVEL = 'other'
 UNITS = ['src/monitoring/RateMonitoring.cpp', 'src/diagnostics/CheckupRate.cpp']
 ENGINES = 'E-STATE + E-ORD + E-ALG over romea-facts'
-TECHNIQUE = 'symbolic per-path reading of the update/timeout recurrences (exact formulas), paired queue/sum rule, boundary-witness evaluation of the extracted timeout predicate, dataflow wiring of the rate into the check-up'
+TECHNIQUE = 'every path of update() establishes the has-data state the timeout predicate reads; symbolic per-path reading of the update/timeout recurrences (exact formulas), paired queue/sum rule, boundary-witness evaluation of the extracted timeout predicate, dataflow wiring of the rate into the check-up'
 EXPLANATION = ('RateMonitoring::initialize/update/timeout and the CheckupRate wrappers are read symbolically with all callees inlined; the window constant, the paired '
                'push/pop/sum update, the rate formula, the timeout predicate (on integer nanoseconds, boundary witnesses) and the wiring of the monitored rate into the '
                'check-up and of the timeout into STALE are decided on the extracted formulas.')
